@@ -67,6 +67,11 @@ def _holds(v):
     return out
 
 
+def _with_value(p, value):
+    q = ai.SPath(p.guards, p.kind, value, p.exc, p.stmt, p.store, p.env, p.effects, p.closures)
+    return q
+
+
 def _select(paths, asg):
     res = ai.enum_run(paths, asg)
     if len(res) != 1 or not res[0][1]:
@@ -90,7 +95,8 @@ def d3_matrices(ctx, idx):
                 r_sym.violation(construct, 'the branch %s instead of returning an array' % p.kind, where)
                 continue
             try:
-                v = ai.AlgEval(base).ev(p.value)
+                val = ai.specialise(idx, fi, p.value, {'symmetry': s, 'traceless': False})
+                v = ai.AlgEval(base).ev(val)
             except Unsupported as e:
                 r_sym.undecided(construct, str(e), where)
                 continue
@@ -98,7 +104,7 @@ def d3_matrices(ctx, idx):
                 r_sym.violation(construct, 'the branch returns %s, not a matrix of the sampled shape' % (v.other[1] if v.other else v.text()), where)
                 continue
             if v.is_zero():
-                r_sym.violation(construct, 'the branch returns the zero matrix (`%s` cancels)' % ai.show(p.value), where)
+                r_sym.violation(construct, 'the branch returns the zero matrix (`%s` cancels)' % ai.show(val), where)
                 continue
             holds = _holds(v)
             if s is None:
@@ -119,8 +125,8 @@ def d3_matrices(ctx, idx):
             construct = 'SquareMatrices.apply_symmetry [symmetry=%r, traceless]' % s
             where = lib.loc(fi, p.stmt)
             try:
-                v = ai.AlgEval(base).ev(p.value)
-                v0 = ai.AlgEval(base).ev(p0.value) if p0.kind == 'ret' else None
+                v = ai.AlgEval(base).ev(ai.specialise(idx, fi, p.value, {'symmetry': s, 'traceless': True}))
+                v0 = ai.AlgEval(base).ev(ai.specialise(idx, fi, p0.value, {'symmetry': s, 'traceless': False})) if p0.kind == 'ret' else None
             except Unsupported as e:
                 r_tr.undecided(construct, str(e), where)
                 continue
@@ -200,8 +206,13 @@ def d3_matrices(ctx, idx):
                             where, expected='1/dimension', found=e.text())
                 continue
             odd = any(c == ('cmp', '==', ('mod', ('cfg', 'dimension'), ai.num(2)), ai.num(1)) for g in p.conds for c in ai.t_conjuncts(g))
-            pos = any(c == ('cmp', '<', ai.num(0), ('call', 'numpy.real', (det_t,), ())) for g in p.conds for c in ai.t_conjuncts(g))
-            negd = any(c == ('cmp', '<', ('call', 'numpy.real', (det_t,), ()), ai.num(0)) for g in p.conds for c in ai.t_conjuncts(g))
+            dets = (det_t, ('call', 'numpy.real', (det_t,), ()))
+            conj = [c for g in p.conds for c in ai.t_conjuncts(g)]
+            pos = any(c[0] == 'cmp' and c[1] in ('<', '<=') and c[3] in dets and c[2][0] == 'num' and
+                      (c[2][1] > 0 or (c[2][1] == 0 and c[1] == '<')) for c in conj)
+            negd = any(c[0] == 'cmp' and c[1] in ('<', '<=') and c[2] in dets and c[3][0] == 'num' and
+                       (c[3][1] < 0 or (c[3][1] == 0 and c[1] == '<')) for c in conj)
+            mentions_det = any(ai.mentions(c, det_t) for c in conj)
             if absolute and not pos:
                 # |det| = sigma*det with sigma the sign of det: known only from a guard that holds on the whole path
                 if realbranch and negd:
@@ -218,7 +229,9 @@ def d3_matrices(ctx, idx):
                                 found=ai.show(p.value)[:120])
                     continue
             if sign > 0 and sigma > 0:
-                if realbranch and not pos and not absolute:
+                if realbranch and not pos and not absolute and mentions_det:
+                    r.undecided(construct, 'cannot tell from `%s` that the determinant is positive' % ' and '.join(ai.show(c) for c in conj if ai.mentions(c, det_t))[:120], where)
+                elif realbranch and not pos and not absolute:
                     r.violation(construct, 'a real determinant is rescaled without checking det > 0: a negative determinant has no real '
                                 'dimension-th root in even dimensions', where, expected='if det > 0')
                 else:
@@ -300,6 +313,8 @@ def d3_matrices(ctx, idx):
             p = _select(paths, {'triangular': tri})
             construct = 'GeneralMatrices.apply_symmetry [triangular=%r]' % tri
             where = lib.loc(fi, p.stmt)
+            if p.kind == 'ret':
+                p = _with_value(p, ai.specialise(idx, fi, p.value, {'triangular': tri}))
             if p.kind != 'ret':
                 r.violation(construct, 'no array is returned', where)
             elif p.value == spec[tri]:
@@ -321,13 +336,11 @@ def d3_matrices(ctx, idx):
     with r:
         fi = idx.func(ARR + '.generate_sample')
         loop, tr = _retry_parts(fi)
-        pre = []
+        flat = []
         for s in loop.body:
-            if s is tr:
-                break
-            pre.append(s)
+            flat.extend(list(tr.body) + list(tr.orelse) if s is tr else [s])
         try:
-            paths = ai.sym_exec(idx, fi, stmts=pre + list(tr.body))
+            paths = ai.sym_exec(idx, fi, stmts=flat)
         except Unsupported as e:
             raise AnalysisError('generate_sample: %s' % e)
         facts = ai.Facts().add(ai.SymFact('shape', ai.Interval(1, ai.INF), integer=True))
@@ -345,6 +358,10 @@ def d3_matrices(ctx, idx):
                 a = v[3][0]
                 if a[0] == 'meth' and a[1] == ('self',) and a[2] == 'apply_symmetry' and len(a[3]) == 1:
                     inner = a[3][0]
+                elif a[0] != 'meth' and not (any(s_[0] == 'call' and s_[1] in ai.UNIFORM_01 for s_ in ai.subterms(a))
+                                             and not any(s_[0] in ('meth', 'opaque') for s_ in ai.subterms(a))):
+                    r.undecided(construct + ': pipeline', 'argument of normalize `%s` not recognised' % ai.show(a)[:80], where)
+                    continue
                 elif a[0] != 'meth':
                     r.violation(construct + ': pipeline', 'apply_symmetry is not applied before normalize: the requested symmetry / '
                                 'tracelessness is never imposed', where, expected='normalize(apply_symmetry(array))', found=ai.show(v)[:100])
@@ -694,7 +711,11 @@ def d5_retry(ctx, idx):
                     and isinstance(t.comparators[0], ast.Constant) and isinstance(t.comparators[0].value, int):
                 c = t.left.id
                 incs = []
-                for s in loop.body:
+                from ..index import ancestors as _anc
+                uncond = [n for n in ast.walk(loop) if isinstance(n, ast.stmt) and n is not loop and all(
+                    (isinstance(a, ast.Try) and any(n is x or any(n is y for y in ast.walk(x)) for x in a.body)) or a is loop
+                    for a in _anc(n) if isinstance(a, ast.stmt) and any(a is z for z in ast.walk(loop)))]
+                for s in uncond:
                     if isinstance(s, ast.AugAssign) and isinstance(s.target, ast.Name) and s.target.id == c and isinstance(s.op, ast.Add) \
                             and isinstance(s.value, ast.Constant) and s.value.value > 0:
                         incs.append(s)
@@ -705,7 +726,11 @@ def d5_retry(ctx, idx):
                     isinstance(x, ast.Name) and x.id == c and isinstance(x.ctx, ast.Store) for x in ast.walk(n))]
                 inits = [n for n in others if isinstance(n, ast.Assign) and isinstance(n.value, ast.Constant) and n not in ast.walk(loop)]
                 inside = [n for n in others if any(n is x for x in ast.walk(loop))]
-                if not incs:
+                cond_incs = [n for n in ast.walk(loop) if isinstance(n, (ast.AugAssign, ast.Assign)) and n not in incs and any(
+                    isinstance(x, ast.Name) and x.id == c and isinstance(x.ctx, ast.Store) for x in ast.walk(n))]
+                if not incs and cond_incs:
+                    r.undecided(construct, 'the counter %s is only advanced conditionally' % c, where)
+                elif not incs:
                     r.violation(construct, 'the counter %s is never advanced at the top level of the loop body: the bound %d is never reached '
                                 'and impossible constraints make the grader hang' % (c, t.comparators[0].value), where, expected='%s += 1' % c)
                 elif inside:
@@ -720,7 +745,25 @@ def d5_retry(ctx, idx):
         construct = 'ArraySamplingSet.generate_sample: except'
         names = [n for h in tr.handlers for n in lib.handler_class_names(h)]
         catch_all = [n for n in names if n in ('Exception', 'BaseException')]
+        dispatch = None
         if catch_all:
+            # a merged clause `except Exception as e: if isinstance(e, Retry): continue; raise` is the same handler
+            h0 = next(h for h in tr.handlers if set(lib.handler_class_names(h)) & {'Exception', 'BaseException'})
+            try:
+                hp = ai.sym_exec(idx, fi, stmts=h0.body) if h0.name else []
+            except Unsupported:
+                hp = []
+
+            def _retry_guard(q):
+                return any(c[0] == 'call' and c[1] == 'isinstance' and len(c[2]) == 2 and c[2][0] == ('param', h0.name)
+                           and c[2][1][0] == 'ext' and c[2][1][1].split('.')[-1] == 'Retry' for g in q.conds for c in ai.t_conjuncts(g))
+            if hp and all(q.kind == 'raise' or (q.kind in ('continue', 'fall') and _retry_guard(q)) for q in hp) \
+                    and any(q.kind != 'raise' for q in hp):
+                dispatch = h0
+        if dispatch is not None:
+            r.ok(construct, 'catch-all clause that re-raises everything except Retry (isinstance dispatch)', lib.loc(fi, dispatch))
+            r.ok(construct + ' body', 'draws again on Retry only', lib.loc(fi, dispatch))
+        elif catch_all:
             r.violation(construct, 'the retry handler catches %s, i.e. everything: genuine failures (assertion, numerical or configuration '
                         'errors) are silently retried 100 times and end in an unrelated ValueError instead of surfacing' % catch_all[0],
                         lib.loc(fi, tr.handlers[0]), expected='except Retry', found='except ' + ', '.join(names))
@@ -733,7 +776,7 @@ def d5_retry(ctx, idx):
                 r.undecided(construct, 'the retry handler also catches %s, which was not reviewed' % ', '.join(extra), lib.loc(fi, tr.handlers[0]))
             else:
                 r.ok(construct, 'only Retry', lib.loc(fi, tr.handlers[0]))
-        if tr.handlers and ('Retry' in names or catch_all):
+        if dispatch is None and tr.handlers and ('Retry' in names or catch_all):
             for h in tr.handlers:
                 bad = [s for s in h.body if not isinstance(s, (ast.Continue, ast.Pass)) and not (isinstance(s, ast.Expr) and isinstance(s.value, (ast.Constant, ast.Call)))
                        and not (isinstance(s, ast.Assign) and all(isinstance(t_, ast.Name) and t_.id.startswith('_sa_') for t_ in s.targets))]
@@ -808,8 +851,13 @@ def d3_det_zero(ctx, idx):
             stores = [e for e, _ in p.effects if e[0] == 'store']
             small = any(c[0] == 'cmp' and c[1] == '<' and ai.mentions(c[2], det_t) and c[3][0] == 'num' for c in p.conds)
             if p.value == base and not stores:
-                r.check(small, 'make_det_zero: unchanged array', 'only when |det| is already below the threshold',
-                        'the array is returned unchanged although its determinant was not found to vanish (under %s)' % (guards or 'no condition'), where)
+                if small:
+                    r.ok('make_det_zero: unchanged array', 'only when |det| is already below the threshold', where)
+                elif any(ai.mentions(c, det_t) for c in p.conds):
+                    r.undecided('make_det_zero: unchanged array', 'condition on the determinant `%s` not recognised' % guards, where)
+                else:
+                    r.violation('make_det_zero: unchanged array', 'the array is returned unchanged on a path that never looks at its determinant '
+                                '(under %s)' % (guards or 'no condition'), where)
                 continue
             if p.value == base and stores:
                 construct = 'make_det_zero: diagonal entry'
